@@ -430,10 +430,10 @@ def obligations(tier):
             for c1 in range(NST):
                 obs.append(Ob(pipe3, fixed={'base': 0, 'c0': c0, 'c1': c1}, pre='0 <= c2 < %d and len(xs) <= 3' % NST,
                               name='pipe3_%s_%s_any' % (STAGE_NAMES[c0], STAGE_NAMES[c1])))
-        for c0 in (0, 1, 5, 6, 7):
-            for c1 in (1, 3, 9):
-                for c2 in (0, 2, 4, 8, 9):
-                    obs.append(Ob(pipe4, fixed={'base': 1, 'c0': c0, 'c1': c1, 'c2': c2}, pre='0 <= c3 < %d and len(xs) <= 3' % NST,
+        for c0 in (0, 1, 5):                  # sized: length-4 pipelines over 18 representative prefixes, sources up to 2 items
+            for c1 in (1, 3):
+                for c2 in (0, 2, 8):
+                    obs.append(Ob(pipe4, fixed={'base': 1, 'c0': c0, 'c1': c1, 'c2': c2}, pre='0 <= c3 < %d and len(xs) <= 2' % NST,
                                   name='pipe4_%s_%s_%s_any' % (STAGE_NAMES[c0], STAGE_NAMES[c1], STAGE_NAMES[c2])))
     for w in range(4):
         obs.append(Ob(first_eq, fixed={'which': w}, pre=rng, name='first_eq_%d' % w))
